@@ -258,6 +258,22 @@ static std::vector<HandDesign> handDesigns() {
 		pinOut(reg(r2, 0)).setName("r2q");
 	}});
 
+	res.push_back({"h_mem_wrorder", "single", "default", [] {
+		// two write ports that frequently hit the same word in the same cycle: the later one (program order) must win
+		UInt a1 = pinIn(1_b).setName("a1"), a2 = pinIn(1_b).setName("a2"), ra = pinIn(1_b).setName("ra");
+		UInt d1 = pinIn(3_b).setName("d1"), d2 = pinIn(3_b).setName("d2");
+		Bit w1 = pinIn().setName("w1"), w2 = pinIn().setName("w2");
+		Memory<UInt> m(2, 3_b);
+		m.setName("wm");
+		m.initZero();
+		UInt r = m[ra];
+		IF (w1) m[a1] = d1;
+		IF (w2) m[a2] = d2;
+		UInt r2 = m[ra];
+		pinOut(r).setName("r");
+		pinOut(reg(r2)).setName("r2q");
+	}});
+
 	res.push_back({"h_retime_enable", "single", "default", [] {
 		UInt in1 = pinIn(8_b).setName("in1"), in2 = pinIn(8_b).setName("in2");
 		Bit ready = pinIn().setName("ready"), valid = pinIn().setName("valid"), e3 = pinIn().setName("e3");
